@@ -177,3 +177,13 @@ def r3(ctx):
         yield VIOL("C14-R3", "from-boxerror/shape", "From<BoxError> for SignatureError is not downcast-or-InternalServiceError (constructs %s)" % sorted(aggs), where=loc(f.j["span"]))
     else:
         yield PASS("C14-R3", "from-boxerror/shape", "From<BoxError>: *downcast or InternalServiceError(e)", [loc(f.j["span"])])
+
+
+import c03  # noqa: E402
+
+
+@M.rule("C14-R2b", "malformed credentials never reach the provider: arity decided exactly (shared with C03-R1)")
+def r2b(ctx):
+    for r in c03.r1(ctx):
+        r.rule = "C14-R2b"
+        yield r
